@@ -23,6 +23,11 @@ var StdPkgs = []*Pkg{
 	{Path: "net/http", Name: "http", Std: true, Decls: []*Decl{
 		stdIface("Handler", "ServeHTTP"), stdDecl("Request", false), stdDecl("Header", false),
 		stdIface("ResponseWriter", "Header", "Write", "WriteHeader"), stdDecl("Client", false), stdDecl("Server", false),
+		stdDecl("Response", false), stdIface("RoundTripper", "RoundTrip"), stdDecl("Cookie", false),
+	}},
+	// testing.TB cannot be implemented outside package testing: an opaque named type here, never embedded
+	{Path: "testing", Name: "testing", Std: true, Decls: []*Decl{
+		stdDecl("TB", true), stdDecl("T", false), stdDecl("B", false),
 	}},
 	{Path: "text/template", Name: "template", Std: true, Decls: []*Decl{
 		stdDecl("Template", false), stdDecl("FuncMap", false),
